@@ -85,6 +85,7 @@ type typeRefTarget struct {
 
 type genCtx struct {
 	pathVarRefs bool // REST path variables may be typed by type references (IntentOpts.PathVarRefs)
+	epAnnos     bool // IntentOpts.EpAnnos
 	apps        []*App
 	types       map[string][]string // app key -> raw type names
 	appKeys     []string
@@ -314,6 +315,7 @@ type IntentOpts struct {
 	Collectors     bool // '.. * <- *' blocks merging attributes into endpoints and call statements
 	PathVarRefs    bool // REST path variables typed by a bare local type name or App.Type
 	MultiLineAnnos bool // string annotations written in the multi-line form '@k =:' + '| text' lines
+	EpAnnos        bool // simple endpoints may carry annotations ('@k = v' lines at the top of their body)
 	PlusText       bool // a literal '+' in return payloads, call endpoints and action text
 	// SubsOrderFree: at most one subscriber per (publisher, event) in the whole specification, and only to
 	// events the publisher does not give statements of its own - then no statement order depends on the
@@ -516,7 +518,7 @@ func isMixedIn(in *Intent, a *App) bool {
 }
 
 func genIntentBase(t *rapid.T, opts IntentOpts) *Intent {
-	g := &genCtx{types: map[string][]string{}, pathVarRefs: opts.PathVarRefs}
+	g := &genCtx{types: map[string][]string{}, pathVarRefs: opts.PathVarRefs, epAnnos: opts.EpAnnos}
 	na := rapid.IntRange(1, 4).Draw(t, "napps")
 	usedApp := map[string]bool{}
 	for i := 0; i < na; i++ {
@@ -637,7 +639,7 @@ func genIntentBase(t *rapid.T, opts IntentOpts) *Intent {
 			if rapid.IntRange(0, 4).Draw(t, "eplong") == 0 {
 				ep.Long = "EP " + genWords(t, 1, 2)
 			}
-			ep.Meta = genMeta(t, false)
+			ep.Meta = genMeta(t, g.epAnnos)
 			ep.Params = g.genParams(t, a, 3)
 			if rapid.IntRange(0, 5).Draw(t, "shortcut") != 0 {
 				ep.Stmts = g.genStmts(t, a, 0, 6)
